@@ -190,6 +190,11 @@ func judgeIndex(f *failer, who, name string, got desync.Index, err error, want r
 		f.fail("C04:concurrent-get:error", "%s: GetIndex(%s) failed: %v", who, name, err)
 		return
 	}
+	judgeIndexSig(f, "C04:concurrent-get:wrong-index", who, name, got, want)
+}
+
+// judgeIndexSig reports one violation sig when got is not the table want.
+func judgeIndexSig(f *failer, sig, who, name string, got desync.Index, want ref.IndexFile) {
 	// compare through the failer-free path first so that one wrong response is one report
 	bad := got.Index.FeatureFlags != want.Flags || got.Index.ChunkSizeMin != want.Min || got.Index.ChunkSizeAvg != want.Avg ||
 		got.Index.ChunkSizeMax != want.Max || len(got.Chunks) != len(want.Items)
@@ -205,7 +210,7 @@ func judgeIndex(f *failer, who, name string, got desync.Index, err error, want r
 		}
 	}
 	if bad || diff > 0 {
-		f.fail("C04:concurrent-get:wrong-index", "%s: GetIndex(%s) returned an index other than the one stored under that name (%d chunks, stored %d; %d table items differ)",
+		f.fail(sig, "%s: GetIndex(%s) returned an index other than the one stored under that name (%d chunks, stored %d; %d table items differ)",
 			who, name, len(got.Chunks), len(want.Items), diff)
 	}
 }
